@@ -16,20 +16,26 @@ const Sentinel = 256
 
 // OShape is handed over by the generated code for one struct type T (properties C01, C02).
 type OShape struct {
-	ID     int
-	G      unsafe.Pointer // struct{ pre [Sentinel]byte; v T; post [Sentinel]byte }
-	GSize  uintptr
-	VOff   uintptr // offset of v in G
-	VSize  uintptr
-	VAlign uintptr
-	Z      unsafe.Pointer  // &g.v
-	Cells  [][2]uintptr    // compiler extent {offset in v, size} of every cell stored in the struct itself; {^0, 0} otherwise
-	Ents   [][2]uintptr    // compiler extent of every listing entry stored by value; {^0, 0} otherwise
-	Set    func(c, k int)  // cell c := value k, written with ordinary selectors
-	Snap   func(c int) int // value index of cell c, read with ordinary selectors (-1 = none of the known values)
-	Args   func() []any    // things that are not *T
-	Reqs   map[int]*OReq   // compiled requests, by (1-based) index into TLC's request list
-	Reqs2  map[int]*OReq   // some of them once more, through the other API (ForProductN <-> ForSpectrumN)
+	ID      int
+	G       unsafe.Pointer // struct{ pre [Sentinel]byte; v T; post [Sentinel]byte }
+	GSize   uintptr
+	VOff    uintptr // offset of v in G
+	VSize   uintptr
+	VAlign  uintptr
+	Z       unsafe.Pointer            // &g.v
+	Cells   [][2]uintptr              // compiler extent {offset in v, size} of every cell stored in the struct itself; {^0, 0} otherwise
+	Ents    [][2]uintptr              // compiler extent of every listing entry stored by value; {^0, 0} otherwise
+	Set     func(c, k int)            // cell c := value k, written with ordinary selectors
+	Snap    func(c int) int           // value index of cell c, read with ordinary selectors (-1 = none of the known values)
+	Foreign func() map[string]Foreign // class of Optics!ForeignClasses -> such a dynamic argument for Putt / Gett
+	Reqs    map[int]*OReq             // compiled requests, by (1-based) index into TLC's request list
+	Reqs2   map[int]*OReq             // some of them once more, through the other API (ForProductN <-> ForSpectrumN)
+}
+
+// Foreign is a container argument of some dynamic type for a Reflector, with a way to look at the bytes behind it.
+type Foreign struct {
+	Arg   any
+	Image func() []byte // nil: nothing to look at (nil, values, integers)
 }
 
 // OReq is one compiled derivation: ForProductN / ForSpectrumN instantiated on the generated types.
@@ -103,6 +109,10 @@ type oCase struct {
 	Listing []oListing `json:"listing"`
 	Reqs    []oReq     `json:"reqs"`
 	Script  []oStep    `json:"script"`
+	Foreign []struct {
+		Class string `json:"class"`
+		Want  string `json:"want"` // "panic": must panic and modify nothing | "put": the reflector's own *T | "any": nothing demanded
+	} `json:"foreign"`
 }
 
 type orun struct {
@@ -549,26 +559,50 @@ func (o *orun) throughPointer(ri int, q *OReq, e *oReq, i int) {
 	o.restore(o.clean)
 }
 
-// foreign: a Reflector given anything but *T panics and modifies nothing.
+// foreign: a Reflector given anything but *T panics and modifies nothing.  Which classes of dynamic types must be
+// refused comes from TLC's table; the generated code supplies one argument per class.
 func (o *orun) foreign(ri int, q *OReq, e *oReq) {
 	s := o.s
+	args := s.Foreign()
 	for i := range q.PutAny {
-		for ai, a := range s.Args() {
+		for _, fc := range o.c.Foreign {
+			if fc.Want != "panic" {
+				continue // "put" is the reflector's own *T (exercised as a lens above); "any": a nil *T is not dereferenced here
+			}
+			a, ok := args[fc.Class]
+			if !ok {
+				o.r.infra(s.ID, "no generated argument for the foreign class "+fc.Class)
+				return
+			}
+			info := func(d string) rec {
+				return rec{"rq": ri, "req": e, "api": q.API, "comp": i, "class": fc.Class, "arg": fmt.Sprintf("%T", a.Arg), "detail": d}
+			}
+			image := func() []byte {
+				if a.Image == nil {
+					return nil
+				}
+				return a.Image()
+			}
 			o.restore(o.clean)
-			before := o.image()
-			p, _ := try(func() { q.PutAny[i](a, 1) })
+			before, abefore := o.image(), image()
+			for k := 1; k <= 2; k++ {
+				p, _ := try(func() { q.PutAny[i](a.Arg, k) })
+				o.r.stats["foreign-calls"]++
+				if !p {
+					o.r.pviol("reflector-accepts-foreign-type", s.ID, info(fmt.Sprintf("Putt(%T (%s), value) did not panic", a.Arg, fc.Class)))
+					break
+				}
+			}
+			if !bytes.Equal(before, o.image()) || !bytes.Equal(abefore, image()) {
+				o.r.pviol("reflector-modifies-on-reject", s.ID, info(fmt.Sprintf("Putt(%T (%s), value) wrote through the argument", a.Arg, fc.Class)))
+				o.restore(o.clean)
+			}
+			p, _ := try(func() { q.GetAny[i](a.Arg) })
 			o.r.stats["foreign-calls"]++
 			if !p {
-				o.r.pviol("reflector-accepts-foreign-type", s.ID, rec{"rq": ri, "req": e, "comp": i, "arg": fmt.Sprintf("%T", a), "argno": ai, "detail": "Putt did not panic"})
+				o.r.pviol("reflector-accepts-foreign-type", s.ID, info(fmt.Sprintf("Gett(%T (%s)) did not panic", a.Arg, fc.Class)))
 			}
-			if !bytes.Equal(before, o.image()) {
-				o.r.pviol("reflector-modifies-on-reject", s.ID, rec{"rq": ri, "req": e, "comp": i, "arg": fmt.Sprintf("%T", a), "argno": ai, "detail": "Putt changed the struct"})
-			}
-			p, _ = try(func() { q.GetAny[i](a) })
-			o.r.stats["foreign-calls"]++
-			if !p {
-				o.r.pviol("reflector-accepts-foreign-type", s.ID, rec{"rq": ri, "req": e, "comp": i, "arg": fmt.Sprintf("%T", a), "argno": ai, "detail": "Gett did not panic"})
-			}
+			o.r.stats["foreign-classes-tried"]++
 		}
 	}
 	o.restore(o.clean)
